@@ -8,8 +8,9 @@ from .lin import CSet, le, ge, eq, lin
 
 
 class E4:
-    def __init__(self, facts, havoc=None, keep_instates=False, soft_widen=False, probes=(), rule_c06a=False, force_ret=None, opaque=(), assume_offsets_in_packet=False, budget_s=None, track_loads=False):
-        """facts: analysis.facts.Facts"""
+    def __init__(self, facts, havoc=None, keep_instates=False, soft_widen=False, probes=(), rule_c06a=False, force_ret=None, opaque=(), assume_offsets_in_packet=False, budget_s=900, track_loads=False):
+        """facts: analysis.facts.Facts.  budget_s: wall-clock limit for the fixpoint iterations of this instance (a change that makes a
+        loop lose its bound can make the relational domain converge very slowly: fail closed instead of hanging)."""
         OBLIGATIONS.clear()
         UNMODELLED.clear()
         PROBES.clear()
